@@ -4,8 +4,11 @@ package c10
 import (
 	"fmt"
 	"go/ast"
+	"go/printer"
 	"go/token"
 	"go/types"
+	"os"
+	"regexp"
 	"sort"
 	"strings"
 
@@ -15,6 +18,7 @@ import (
 	"rscheck/cfgq"
 	"rscheck/core"
 	"rscheck/driver"
+	"rscheck/lin"
 	"rscheck/pat"
 	"rscheck/rules/c10/flow"
 )
@@ -43,6 +47,16 @@ type rs struct {
 	inl  *flow.Inliner // helper calls inlined, the anchors of the rule set kept as calls
 	flat *flow.Inliner // R6 only: the line/terminator writers are inlined into their callers as well
 	cur  ast.Node      // body of the function under analysis (for resolving locals)
+	// allocation found by the length-domain walk per decoder: the make statement and the variable that holds the decoded length in its size
+	allocs map[string]allocSite
+}
+
+type allocSite struct {
+	node   ast.Node      // the statement that allocates
+	call   *ast.CallExpr // the make call
+	size   ast.Expr      // its length (or capacity) argument, which depends on the decoded length
+	holder *ast.Ident    // a variable that holds the decoded length at that point
+	buf    *ast.Ident    // the variable the buffer is assigned to
 }
 
 // anchors are the functions the rules reason about by name; everything else in
@@ -59,7 +73,7 @@ func Run(c *core.Ctx) {
 		c.Undecidedf("anchor", pkg, token.NoPos, "package not loaded")
 		return
 	}
-	r := &rs{c: c, pk: pk, info: pk.TypesInfo}
+	r := &rs{c: c, pk: pk, info: pk.TypesInfo, allocs: map[string]allocSite{}}
 	r.inl = flow.NewInliner(c.Program, func(f *types.Func) bool { return f.Exported() || anchors[f.Name()] })
 	r.flat = flow.NewInliner(c.Program, func(f *types.Func) bool { return f.Exported() || flatKeep[f.Name()] })
 	r.r1()
@@ -84,7 +98,14 @@ func (r *rs) isField(e ast.Expr, typ, field string) bool {
 	return core.IsFieldNamed(r.info, e, typ, field)
 }
 
-func (r *rs) method(recv, name string) *core.Fn { return r.inl.Fn(r.c.Func(pkg, recv, name)) }
+func (r *rs) method(recv, name string) *core.Fn {
+	fn := r.inl.Fn(r.c.Func(pkg, recv, name))
+	if fn != nil && os.Getenv("RS_DUMP") == name {
+		printer.Fprint(os.Stderr, r.c.Fset, fn.Decl.Body)
+		fmt.Fprintln(os.Stderr)
+	}
+	return fn
+}
 
 // guard records a three-valued guard obligation: VIOLATION only when a path
 // reaches the site through tests that are all understood; tests on the tracked
@@ -172,9 +193,8 @@ func isConst(info *types.Info, e ast.Expr, k int64) bool {
 // against consumption, propagated along every CFG path.
 
 type event struct {
-	key  string // "1" for single bytes, "len(<var>)" for a whole buffer
-	d    int    // change of (counted - consumed)
-	desc string
+	terms map[string]int // change of (counted - consumed): "byte" for constants, atoms of the linear form otherwise
+	desc  string
 }
 
 type acct struct {
@@ -187,6 +207,7 @@ type acct struct {
 	unread   int
 	counters int
 	keys     map[types.Object]bool
+	lens     map[string]types.Object // lin key of len(v) -> v, for the slice variables of the function
 }
 
 func (a *acct) base(sel ast.Expr) {
@@ -199,9 +220,61 @@ func (a *acct) base(sel ast.Expr) {
 	a.bad = append(a.bad, "Decoder field reached through an expression that is not a plain variable: "+a.r.c.Src(sel))
 }
 
-func (a *acct) lenKey(o types.Object) string {
-	a.keys[o] = true
-	return "len(" + o.Name() + ")"
+var addrRE = regexp.MustCompile(`@0x[0-9a-f]+`)
+
+func pretty(k string) string { return addrRE.ReplaceAllString(k, "") }
+
+// lenAtom is the key package lin gives to len(o).
+func (a *acct) lenAtom(o types.Object) string {
+	id := ast.NewIdent(o.Name())
+	a.r.info.Uses[id] = o
+	ln := ast.NewIdent("len")
+	a.r.info.Uses[ln] = types.Universe.Lookup("len")
+	return lin.Key(a.r.info, &ast.CallExpr{Fun: ln, Args: []ast.Expr{id}})
+}
+
+// terms turns a linear form into balance terms; the length of a buffer made
+// once with a size whose variables do not change stands for that size, so
+// `len(b)` and `n + 2` are the same amount for b := make([]byte, n+2).
+func (a *acct) terms(f lin.Form, sign int) map[string]int {
+	info := a.r.info
+	if a.lens == nil {
+		a.lens = map[string]types.Object{}
+		core.InspectAll(a.fd.Body, func(m ast.Node) bool {
+			if id, ok := m.(*ast.Ident); ok {
+				if v, isVar := core.ObjOf(info, id).(*types.Var); isVar && !v.IsField() {
+					switch v.Type().Underlying().(type) {
+					case *types.Slice:
+						a.lens[a.lenAtom(v)] = v
+					}
+				}
+			}
+			return true
+		})
+	}
+	out := map[string]int{}
+	if f.Const != 0 {
+		out["byte"] += sign * int(f.Const)
+	}
+	for k, c := range f.Coef {
+		if o, isLen := a.lens[k]; isLen {
+			id := ast.NewIdent(o.Name())
+			info.Uses[id] = o
+			if mk, ok := ast.Unparen(flow.Resolve(info, a.fd.Body, id)).(*ast.CallExpr); ok && flow.IsBuiltin(info, mk, "make") && len(mk.Args) >= 2 {
+				for k2, c2 := range a.terms(lin.Of(info, mk.Args[1]), sign*int(c)) {
+					out[k2] += c2
+				}
+				continue
+			}
+			a.keys[o] = true
+		}
+		out[pretty(k)] += sign * int(c)
+	}
+	return out
+}
+
+func (a *acct) lenTerms(o types.Object, sign int) map[string]int {
+	return a.terms(lin.Form{Coef: map[string]int64{a.lenAtom(o): 1}}, sign)
 }
 
 // events lists, in source order, the accounting events of one cfg node.
@@ -210,16 +283,21 @@ func (a *acct) events(n ast.Node) []event {
 	isR := func(e ast.Expr) bool { return r.isField(e, "Decoder", "r") }
 	isOff := func(e ast.Expr) bool { return r.isField(e, "Decoder", "offset") }
 	var evs []event
+	unit := func(d int) map[string]int { return map[string]int{"byte": d} }
 	amount := func(e ast.Expr, sign int, src ast.Node) {
-		if k, ok := core.IntConst(info, unconv(info, e)); ok {
-			evs = append(evs, event{"byte", sign * int(k), r.c.Src(src)})
-			a.counters++
-		} else if o := lenOf(info, a.fd.Body, e); o != nil {
-			evs = append(evs, event{a.lenKey(o), sign, r.c.Src(src)})
-			a.counters++
-		} else {
-			a.bad = append(a.bad, "offset changed by an amount that is neither a constant nor len(buffer): "+r.c.Src(src))
+		f := lin.Of(info, e)
+		bad := false
+		for k := range f.Coef {
+			if strings.HasPrefix(k, "<") { // an expression lin could not key
+				bad = true
+			}
 		}
+		if bad {
+			a.bad = append(a.bad, "offset changed by an amount that is not a linear combination of constants, variables and buffer lengths: "+r.c.Src(src))
+			return
+		}
+		evs = append(evs, event{a.terms(f, sign), r.c.Src(src)})
+		a.counters++
 	}
 	core.Inspect(n, func(m ast.Node) bool {
 		switch s := m.(type) {
@@ -231,7 +309,7 @@ func (a *acct) events(n ast.Node) []event {
 				if s.Tok == token.DEC {
 					d = -1
 				}
-				evs = append(evs, event{"byte", d, r.c.Src(s)})
+				evs = append(evs, event{unit(d), r.c.Src(s)})
 				a.counters++
 			}
 		case *ast.AssignStmt:
@@ -271,7 +349,7 @@ func (a *acct) events(n ast.Node) []event {
 				if call, ok := ast.Unparen(s.Rhs[0]).(*ast.CallExpr); ok && flow.MethodOn(call, "ReadBytes", isR) && len(s.Lhs) == 2 {
 					if o := flow.Obj(info, s.Lhs[0]); o != nil {
 						a.handled[call] = true
-						evs = append(evs, event{a.lenKey(o), -1, r.c.Src(call)})
+						evs = append(evs, event{a.lenTerms(o, -1), r.c.Src(call)})
 						a.consume++
 					}
 				}
@@ -284,10 +362,10 @@ func (a *acct) events(n ast.Node) []event {
 				a.handled[ast.Unparen(sel.X)] = true
 				switch sel.Sel.Name {
 				case "ReadByte":
-					evs = append(evs, event{"byte", -1, r.c.Src(s)})
+					evs = append(evs, event{unit(-1), r.c.Src(s)})
 					a.consume++
 				case "UnreadByte":
-					evs = append(evs, event{"byte", +1, r.c.Src(s)})
+					evs = append(evs, event{unit(+1), r.c.Src(s)})
 					a.unread++
 				case "ReadBytes":
 					if !a.handled[s] {
@@ -302,7 +380,7 @@ func (a *acct) events(n ast.Node) []event {
 				a.base(s.Args[0])
 				a.handled[ast.Unparen(s.Args[0])] = true
 				if o := flow.Obj(info, s.Args[1]); o != nil {
-					evs = append(evs, event{a.lenKey(o), -1, r.c.Src(s)})
+					evs = append(evs, event{a.lenTerms(o, -1), r.c.Src(s)})
 					a.consume++
 				} else {
 					a.bad = append(a.bad, "io.ReadFull into an expression that is not a plain buffer variable: "+r.c.Src(s))
@@ -387,6 +465,7 @@ func (r *rs) r1() {
 		failBal := ""
 		overflow := false
 		okExit := flow.OkExit(g)
+		errEdge := flow.ErrEdge(g)
 		for len(work) > 0 && failure == nil {
 			s := work[0]
 			work = work[1:]
@@ -397,7 +476,9 @@ func (r *rs) r1() {
 			trail := append([]string(nil), s.trail...)
 			for _, n := range s.b.Nodes {
 				for _, e := range evOf[n] {
-					bal[e.key] += e.d
+					for k, d := range e.terms {
+						bal[k] += d
+					}
 					trail = append(trail, fmt.Sprintf("L%d: %s  => counted-consumed: %s", c.Fset.Position(n.Pos()).Line, e.desc, orZero(canon(bal))))
 				}
 			}
@@ -421,7 +502,10 @@ func (r *rs) r1() {
 				}
 				continue
 			}
-			for _, t := range s.b.Succs {
+			for si, t := range s.b.Succs {
+				if errEdge(s.b, si) {
+					continue // an error was just found non-nil: not a successful path, whatever the exit looks like
+				}
 				key := fmt.Sprintf("%d|%s", t.Index, canon(bal))
 				if !seen[key] {
 					seen[key] = true
@@ -429,7 +513,17 @@ func (r *rs) r1() {
 				}
 			}
 		}
+		// a residue over two or more different quantities (say len(b) against n) may still be zero at run
+		// time: only a constant residue, or one over a single quantity, is a provable difference
+		atoms := 0
+		for _, part := range strings.Fields(failBal) {
+			if !strings.HasPrefix(part, "byte:") {
+				atoms++
+			}
+		}
 		switch {
+		case failure != nil && atoms >= 2:
+			c.Undecidedf("R1.account", "balance/"+name, fd.Pos(), "the offset is advanced by an amount (%s) that cannot be related to the bytes consumed", failBal)
 		case failure != nil:
 			c.Check("R1.account", "balance/"+name, fd.Pos(), false,
 				fmt.Sprintf("on a successful path through %s the offset and the bytes taken from the reader differ (counted-consumed = %s): the position reported by MustDecodeOpt is no longer the number of bytes consumed, so replication offsets derived from it are wrong", name, failBal), failure...)
